@@ -17,6 +17,17 @@ def _is_sym(x):
     return isinstance(x, (sx.SymReal, sx.SymBool, sx.NaNValue))
 
 
+def _has_sym(args):
+    for x in args:
+        if _is_sym(x):
+            return True
+        if isinstance(x, _np.ndarray) and x.dtype == object and any(_is_sym(v) for v in x.flat):
+            return True
+        if isinstance(x, (list, tuple)) and _has_sym(x):
+            return True
+    return False
+
+
 def _elementwise(f):
     def g(x, *a, **k):
         if isinstance(x, _np.ndarray):
@@ -44,7 +55,46 @@ class NumpyProxy:
             self._sp = sympy
 
     def __getattr__(self, name):
-        return getattr(_np, name)
+        attr = getattr(_np, name)
+        if callable(attr) and not isinstance(attr, type):
+            # a numpy routine without a re-statement here: fine on concrete numbers, "unsupported" (undecided, never a
+            # crash and never a verdict) when its C implementation rejects symbolic elements
+            def guarded(*a, **k):
+                try:
+                    return attr(*a, **k)
+                except TypeError as exc:
+                    if _has_sym(a) or _has_sym(tuple(k.values())):
+                        raise sx.Unsupported(f"numpy.{name} on symbolic values: {exc}") from None
+                    raise
+            guarded.__name__ = name
+            return guarded
+        return attr
+
+    # ---- sign handling ------------------------------------------------------------
+    def copysign(self, x, y, *a, **k):
+        if hasattr(x, '_map') or hasattr(y, '_map'):
+            raise sx.Unsupported("numpy.copysign on a Series")
+        if isinstance(x, (_np.ndarray, list, tuple)) or isinstance(y, (_np.ndarray, list, tuple)):
+            xa, ya = _np.asarray(x, dtype=object), _np.asarray(y, dtype=object)
+            b = _np.broadcast(xa, ya)
+            out = _np.empty(b.shape, dtype=object)
+            out.flat = [self.copysign(u, v) for u, v in b]
+            return out
+        if not (_is_sym(x) or _is_sym(y)) and self._mode != 'sympy':
+            return _np.copysign(x, y)
+        if self._mode == 'sympy' and not _is_sym(x) and not _is_sym(y):
+            return self._sp.Piecewise((self._sp.Abs(x), y >= 0), (-self._sp.Abs(x), True))
+        ax = abs(x)
+        return ax if y >= 0 else -ax
+
+    def sign(self, x, *a, **k):
+        def one(v):
+            if self._mode == 'sympy' and not _is_sym(v):
+                return self._sp.sign(v)
+            if not _is_sym(v):
+                return _np.sign(v)
+            return 1 if v > 0 else (-1 if v < 0 else 0)
+        return _elementwise(one)(x)
 
     # ---- transcendental ---------------------------------------------------------
     def _log1(self, v):
